@@ -213,7 +213,9 @@ func unreleased(log []vkit.LockEvent) []string {
 	}
 	var out []string
 	for k, v := range cnt {
-		if v != 0 {
+		// a negative count means an acquisition the recorder did not see (a method it does not
+		// know); only locks seen taken and never released are reported
+		if v > 0 {
 			out = append(out, fmt.Sprintf("%s(%+d)", k, v))
 		}
 	}
